@@ -413,12 +413,12 @@ def trip(ser, kind, min_size, wrappers, leaf_i):
     LAST_DETAIL = {"value": what, "why": None}
     return True
 
-def values___S_____K_____E__(w1: int, w2: int, w3: int, leaf_i: int) -> bool:
+def values___S_____K_____E_____LLO__(w1: int, w2: int, w3: int, leaf_i: int) -> bool:
     """
-    pre: 0 <= w1 <= 4 and 0 <= w2 <= 4 and 0 <= w3 <= 4 and 0 <= leaf_i <= 14
+    pre: 0 <= w1 <= 4 and 0 <= w2 <= 4 and 0 <= w3 <= 4 and __LLO__ <= leaf_i <= __LHI__
     post: _
     """
-    w1 = pick(w1, 0, 4); w2 = pick(w2, 0, 4); w3 = pick(w3, 0, 4); leaf_i = pick(leaf_i, 0, 14)
+    w1 = pick(w1, 0, 4); w2 = pick(w2, 0, 4); w3 = pick(w3, 0, 4); leaf_i = pick(leaf_i, __LLO__, __LHI__)
     with NoTracing():
         return trip(SERIALIZERS[__S__], ["mem", "sqlite"][__K__], [10**6, 0][__E__], [w1, w2, w3], leaf_i)
 '''
@@ -483,8 +483,9 @@ def run(ctx: Ctx) -> None:
     for si in range(3):
         for k in range(2):
             for e in range(2):
-                vsrc += vf.replace("__S__", str(si)).replace("__K__", str(k)).replace("__E__", str(e))
-                vconds.append(Cond(f"values_{si}_{k}_{e}", "confirm", 1500, keyfn=_key_from_replay))
+                for llo, lhi in ((0, 7), (8, 14)):
+                    vsrc += vf.replace("__S__", str(si)).replace("__K__", str(k)).replace("__E__", str(e)).replace("__LLO__", str(llo)).replace("__LHI__", str(lhi))
+                    vconds.append(Cond(f"values_{si}_{k}_{e}_{llo}", "confirm", 1500, keyfn=_key_from_replay))
     vsrc += SHAPEX
     vconds += [Cond("values_twin", "refute", 60), Cond("values_canary", "refute", 300)]
     ctx.ch_batch("c15values", vsrc, vconds)
